@@ -468,6 +468,11 @@ func cmdC04Sweep(seed uint64, thorough bool, dir string) {
 				{"struct field", fmt.Sprintf("p := &pt{v: %d}; return p.v", k)},
 				{"field store", fmt.Sprintf("p := &pt{}; p.v = %d; return p.v", k)},
 				{"append(K)", fmt.Sprintf("var s []%s; s = append(s, %d); return s[0]", T, k)},
+				// constant EXPRESSIONS (not bare literals) as initialisers: still untyped constants, converted to T
+				{"var x T = K*1", fmt.Sprintf("var x %s = %d * 1; return x", T, k)},
+				{"var x T = (K)", fmt.Sprintf("var x %s = (%d); return x", T, k)},
+				{"var x T = K+1-1", fmt.Sprintf("var x %s = %d + 1 - 1; return x", T, k)},
+				{"var x, y T = K*1, 1", fmt.Sprintf("var x, y %s = %d * 1, 1; _ = y; return x", T, k)},
 			}
 			for fi, f := range forms {
 				n := fmt.Sprintf("decl_%d_%d", fi, ki)
@@ -477,6 +482,9 @@ func cmdC04Sweep(seed uint64, thorough bool, dir string) {
 			n := fmt.Sprintf("gdecl_%d", ki)
 			fmt.Fprintf(&sb, "var gk%d %s = %d\nfunc %s() any { return gk%d }\n", ki, T, k, n, ki)
 			decls = append(decls, decl{n, "var g T = K (global)", k})
+			n2 := fmt.Sprintf("gdeclx_%d", ki)
+			fmt.Fprintf(&sb, "var gx%d %s = %d * 1\nfunc %s() any { return gx%d }\n", ki, T, k, n2, ki)
+			decls = append(decls, decl{n2, "var g T = K*1 (global)", k})
 		}
 		fmt.Fprintf(&sb, "type pt struct { v %s }\nfunc id(a %s) %s { return a }\n", T, T, T)
 		src := sb.String()
